@@ -131,10 +131,29 @@ func runC08(c *core.Ctx) {
 					}
 				}
 			}
-			if c.R.Intn(3) == 0 {
+			hasNil := false
+			if c.R.Intn(2) == 0 {
+				// a nil reference somewhere in the middle of the caller's slice
+				i := c.R.Intn(len(sub) + 1)
 				sub = append(sub, nil)
+				copy(sub[i+1:], sub[i:])
+				sub[i] = nil
+				hasNil = true
 			}
+			before := append([]error(nil), sub...)
 			checkAny(sub, want, "subset")
+			// the caller owns the slice it spreads into IsAny: it must come back untouched
+			for i := range sub {
+				if (sub[i] == nil) != (before[i] == nil) || sub[i] != nil && comparable(sub[i]) && comparable(before[i]) && sub[i] != before[i] {
+					c.Violate("isany-modifies-references", "IsAny modified the caller's slice of references", fmt.Sprintf("e=%s: %s\nelement %d of %d", cd.name, t, i, len(sub)))
+					break
+				}
+			}
+			checkAny(sub, want, "subset-again")
+			var nilAny bool
+			if p := core.Try(func() { nilAny = errors.IsAny(nil, sub...) }); p != nil || nilAny != hasNil {
+				c.Violate("isany-nil", "IsAny(nil, refs...) is not 'some reference is nil'", fmt.Sprintf("e=%s: %s\ngot %v want %v (%v)", cd.name, t, nilAny, hasNil, p))
+			}
 		}
 		// reflexive
 		if got, p := safeIs(cd.err, cd.err); p != nil || !got {
